@@ -17,12 +17,12 @@ import (
 )
 
 type C14Op struct {
-	Kind string `json:"kind"` // write | reply | pause
-	DNS  bool   `json:"dns"`
-	Ms   int    `json:"ms"`
-	Fail bool   `json:"fail"` // write: the outbound send fails (unreachable network, port 0, ...)
-	FailRelay bool `json:"fail_relay"` // reply: sending it on to the client fails (too large for the client's path, ...): that loses this reply, nothing else
-	Hold bool   `json:"hold"` // reply: still being relayed to the client while the next operation (a write) happens
+	Kind      string `json:"kind"` // write | reply | pause
+	DNS       bool   `json:"dns"`
+	Ms        int    `json:"ms"`
+	Fail      bool   `json:"fail"`       // write: the outbound send fails (unreachable network, port 0, ...)
+	FailRelay bool   `json:"fail_relay"` // reply: sending it on to the client fails (too large for the client's path, ...): that loses this reply, nothing else
+	Hold      bool   `json:"hold"`       // reply: still being relayed to the client while the next operation (a write) happens
 }
 
 type C14Hist struct {
